@@ -231,9 +231,314 @@ func blockReturns(b *ssa.BasicBlock) bool {
 	return ok
 }
 
+// confCore is what the containment conditions of one function establish: the
+// edges that pass the test, and the two values compared.
+type confCore struct {
+	fn                        *ssa.Function
+	cut                       []ssaEdge
+	vChecked, rChecked        ssa.Value
+	rootCall, locCall         *ssa.Call
+	havePrefix, haveRootEmpty bool
+}
+
+type confNote struct {
+	construct, verdict, detail string
+	pos                        token.Pos
+}
+
+func sepOperand(y ssa.Value) bool {
+	if cv, ok := y.(*ssa.Convert); ok {
+		if k, ok := cv.X.(*ssa.Const); ok && k.Value != nil {
+			if iv, exact := constant.Int64Val(k.Value); exact && (iv == '/' || iv == '\\') {
+				return true
+			}
+		}
+	}
+	if k, ok := y.(*ssa.Const); ok && k.Value != nil && k.Value.Kind() == constant.String {
+		s := constant.StringVal(k.Value)
+		return s == "/" || s == "\\"
+	}
+	return false
+}
+
+// containmentPredicate: f is a helper of this module `func(dir, path string) bool`
+// (in either order) that returns true only when path == dir or
+// strings.HasPrefix(path, dir+separator).  It reports the parameter indices.
+func containmentPredicate(f *ssa.Function) (dirIdx, pathIdx int, ok bool) {
+	if f == nil || len(f.Blocks) == 0 || f.Pkg == nil || !strings.HasPrefix(f.Pkg.Pkg.Path(), modPath) {
+		return 0, 0, false
+	}
+	if f.Signature.Results().Len() != 1 {
+		return 0, 0, false
+	}
+	if bt, isB := f.Signature.Results().At(0).Type().Underlying().(*types.Basic); !isB || bt.Kind() != types.Bool {
+		return 0, 0, false
+	}
+	paramIdx := func(v ssa.Value) int {
+		for i, p := range f.Params {
+			if ssa.Value(p) == v {
+				return i
+			}
+		}
+		return -1
+	}
+	dirIdx, pathIdx = -1, -1
+	// the HasPrefix call fixes the roles
+	for _, b := range f.Blocks {
+		for _, in := range b.Instrs {
+			call, isCall := in.(*ssa.Call)
+			if !isCall || !staticCalleeIs(&call.Call, "strings", "HasPrefix") || len(call.Call.Args) != 2 {
+				continue
+			}
+			add2, isAdd := call.Call.Args[1].(*ssa.BinOp)
+			if !isAdd || add2.Op != token.ADD || !sepOperand(add2.Y) {
+				return 0, 0, false
+			}
+			pi, di := paramIdx(call.Call.Args[0]), paramIdx(add2.X)
+			if pi < 0 || di < 0 || (pathIdx >= 0 && (pi != pathIdx || di != dirIdx)) {
+				return 0, 0, false
+			}
+			pathIdx, dirIdx = pi, di
+		}
+	}
+	if pathIdx < 0 {
+		return 0, 0, false
+	}
+	isTest := func(v ssa.Value) bool {
+		switch x := v.(type) {
+		case *ssa.Call:
+			return staticCalleeIs(&x.Call, "strings", "HasPrefix")
+		case *ssa.BinOp:
+			if x.Op == token.EQL {
+				a, b := paramIdx(x.X), paramIdx(x.Y)
+				return (a == pathIdx && b == dirIdx) || (a == dirIdx && b == pathIdx)
+			}
+		}
+		return false
+	}
+	var cut []ssaEdge
+	for _, b := range f.Blocks {
+		cond, neg := condOfBlock(b)
+		if cond == nil || !isTest(cond) {
+			continue
+		}
+		if neg {
+			cut = append(cut, ssaEdge{b, 1})
+		} else {
+			cut = append(cut, ssaEdge{b, 0})
+		}
+	}
+	var implies func(v ssa.Value, at *ssa.BasicBlock, depth int) bool
+	implies = func(v ssa.Value, at *ssa.BasicBlock, depth int) bool {
+		if depth > 4 {
+			return false
+		}
+		if k, isK := v.(*ssa.Const); isK && k.Value != nil && k.Value.Kind() == constant.Bool {
+			if !constant.BoolVal(k.Value) {
+				return true
+			}
+			return !ssaReachableAvoiding(f, at, cut)
+		}
+		if isTest(v) {
+			return true
+		}
+		if phi, isPhi := v.(*ssa.Phi); isPhi {
+			for i, e := range phi.Edges {
+				pred := phi.Block().Preds[i]
+				if k, isK := e.(*ssa.Const); isK && k.Value != nil && k.Value.Kind() == constant.Bool && constant.BoolVal(k.Value) {
+					// `true` arriving from pred: the edge pred -> phi block must be a passing edge,
+					// or pred itself reachable only across one
+					okEdge := !ssaReachableAvoiding(f, pred, cut)
+					for _, ce := range cut {
+						if ce.From == pred && pred.Succs[ce.K] == phi.Block() {
+							// pred's other edge must not also lead here
+							other := pred.Succs[1-ce.K]
+							if other != phi.Block() {
+								okEdge = true
+							}
+						}
+					}
+					if !okEdge {
+						return false
+					}
+					continue
+				}
+				if !implies(e, pred, depth+1) {
+					return false
+				}
+			}
+			return true
+		}
+		return false
+	}
+	nret := 0
+	for _, b := range f.Blocks {
+		for _, in := range b.Instrs {
+			if r, isRet := in.(*ssa.Return); isRet {
+				nret++
+				if len(r.Results) != 1 || !implies(r.Results[0], b, 0) {
+					return 0, 0, false
+				}
+			}
+		}
+	}
+	return dirIdx, pathIdx, nret > 0
+}
+
+// confineCoreOf scans the conditions of fn for the containment test — written
+// in place (HasPrefix / ==) or through a containment predicate helper — and
+// for the RootDir == "" switch.
+func confineCoreOf(fn *ssa.Function) (*confCore, []confNote) {
+	core := &confCore{fn: fn}
+	var notes []confNote
+	for _, b := range fn.Blocks {
+		cond, neg := condOfBlock(b)
+		if cond == nil {
+			continue
+		}
+		tEdge, fEdge := 0, 1
+		if neg {
+			tEdge, fEdge = 1, 0
+		}
+		switch x := cond.(type) {
+		case *ssa.Call:
+			var v, root ssa.Value
+			switch {
+			case staticCalleeIs(&x.Call, "strings", "HasPrefix") && len(x.Call.Args) == 2:
+				add2, ok := x.Call.Args[1].(*ssa.BinOp)
+				if !ok || add2.Op != token.ADD || !sepOperand(add2.Y) {
+					notes = append(notes, confNote{"prefix test operands", Violated, "the prefix is not `EvalSymlinks(root) result + path separator` (a bare prefix lets /root-evil pass for /root)", x.Pos()})
+					continue
+				}
+				v, root = x.Call.Args[0], add2.X
+			default:
+				di, pi, ok := containmentPredicate(x.Call.StaticCallee())
+				if !ok || di >= len(x.Call.Args) || pi >= len(x.Call.Args) {
+					continue
+				}
+				v, root = x.Call.Args[pi], x.Call.Args[di]
+			}
+			lc := extractOf(v, 0, "path/filepath", "EvalSymlinks")
+			rc := extractOf(root, 0, "path/filepath", "EvalSymlinks")
+			if lc == nil || rc == nil {
+				notes = append(notes, confNote{"prefix test operands", Violated, "the containment test is not applied to (EvalSymlinks(loc) result, EvalSymlinks(root) result + separator)", x.Pos()})
+				continue
+			}
+			core.havePrefix = true
+			core.vChecked, core.rChecked, core.rootCall, core.locCall = v, root, rc, lc
+			core.cut = append(core.cut, ssaEdge{b, tEdge})
+		case *ssa.BinOp:
+			if x.Op != token.EQL && x.Op != token.NEQ {
+				continue
+			}
+			// RootDir == "" / != ""
+			if (isFieldLoad(x.X, "RootDir") && isConstString(x.Y, "")) || (isFieldLoad(x.Y, "RootDir") && isConstString(x.X, "")) {
+				core.haveRootEmpty = true
+				if x.Op == token.EQL {
+					core.cut = append(core.cut, ssaEdge{b, tEdge})
+				} else {
+					core.cut = append(core.cut, ssaEdge{b, fEdge})
+				}
+				continue
+			}
+			lx := extractOf(x.X, 0, "path/filepath", "EvalSymlinks")
+			ly := extractOf(x.Y, 0, "path/filepath", "EvalSymlinks")
+			if lx != nil && ly != nil && x.X.Type().String() == "string" {
+				if x.Op == token.EQL {
+					core.cut = append(core.cut, ssaEdge{b, tEdge})
+				} else {
+					core.cut = append(core.cut, ssaEdge{b, fEdge})
+				}
+				// must relate the same two values as the prefix test
+				if core.vChecked != nil && !((x.X == core.vChecked && x.Y == core.rChecked) || (x.Y == core.vChecked && x.X == core.rChecked)) {
+					notes = append(notes, confNote{"equality test operands", Violated, "the `resolved == root` test compares other values than the prefix test", x.Pos()})
+				}
+			}
+		}
+	}
+	return core, notes
+}
+
+// rootEmptyEdges: the edges of fn on which lib.RootDir is known to be "".
+func rootEmptyEdges(fn *ssa.Function) []ssaEdge {
+	var out []ssaEdge
+	for _, b := range fn.Blocks {
+		cond, neg := condOfBlock(b)
+		bo, ok := cond.(*ssa.BinOp)
+		if !ok || !((isFieldLoad(bo.X, "RootDir") && isConstString(bo.Y, "")) || (isFieldLoad(bo.Y, "RootDir") && isConstString(bo.X, ""))) {
+			continue
+		}
+		tEdge, fEdge := 0, 1
+		if neg {
+			tEdge, fEdge = 1, 0
+		}
+		if bo.Op == token.EQL {
+			out = append(out, ssaEdge{b, tEdge})
+		} else if bo.Op == token.NEQ {
+			out = append(out, ssaEdge{b, fEdge})
+		}
+	}
+	return out
+}
+
+// errReturnedIn: in fn, the error (result #1) of call is tested and the error
+// edge returns.
+func errReturnedIn(fn *ssa.Function, call *ssa.Call) bool {
+	for _, b := range fn.Blocks {
+		cond, neg := condOfBlock(b)
+		bo, ok := cond.(*ssa.BinOp)
+		if !ok || (bo.Op != token.NEQ && bo.Op != token.EQL) {
+			continue
+		}
+		ex, ok := bo.X.(*ssa.Extract)
+		if !ok || ex.Tuple != ssa.Value(call) || ex.Index != 1 {
+			continue
+		}
+		errEdge := 0
+		if bo.Op == token.EQL {
+			errEdge = 1
+		}
+		if neg {
+			errEdge = 1 - errEdge
+		}
+		if blockReturns(b.Succs[errEdge]) {
+			return true
+		}
+	}
+	return false
+}
+
+// errNilEdges: the edges of fn on which the error (result #1) of call is nil.
+func errNilEdges(fn *ssa.Function, call *ssa.Call) []ssaEdge {
+	var out []ssaEdge
+	for _, b := range fn.Blocks {
+		cond, neg := condOfBlock(b)
+		bo, ok := cond.(*ssa.BinOp)
+		if !ok || (bo.Op != token.NEQ && bo.Op != token.EQL) {
+			continue
+		}
+		ex, ok := bo.X.(*ssa.Extract)
+		if !ok || ex.Tuple != ssa.Value(call) || ex.Index != 1 {
+			continue
+		}
+		if k, ok := bo.Y.(*ssa.Const); !ok || !k.IsNil() {
+			continue
+		}
+		nilEdge := 1
+		if bo.Op == token.EQL {
+			nilEdge = 0
+		}
+		if neg {
+			nilEdge = 1 - nilEdge
+		}
+		out = append(out, ssaEdge{b, nilEdge})
+	}
+	return out
+}
+
 func init() {
 	register(&Rule{ID: "CONFINE.relative", Floor: 6,
-		Doc: "RelativeFileSystemLibrary.LoadSource: with RootDir set, os.ReadFile is reachable only through `HasPrefix(resolved, resolvedRoot+Separator)` true or `resolved == resolvedRoot`; resolved = EvalSymlinks(Clean(join(dir(ctx), loc))), resolvedRoot = EvalSymlinks(Clean(RootDir)) with its error returned; the bytes read are those of `resolved`",
+		Doc: "RelativeFileSystemLibrary.LoadSource: with RootDir set, os.ReadFile is reachable only through `HasPrefix(resolved, resolvedRoot+Separator)` true or `resolved == resolvedRoot` (written in place, through a containment predicate, or inside a confining helper whose error is returned); resolved = EvalSymlinks(Abs(Clean(join(dir(ctx), loc)))), resolvedRoot = EvalSymlinks(Abs(RootDir)) with its error returned; the bytes read are those of `resolved`",
 		Run: func(c *Ctx) []Obligation {
 			fnT, fd, pkg := c.LookupFunc("lisp.(*RelativeFileSystemLibrary).LoadSource")
 			if fnT == nil {
@@ -271,90 +576,81 @@ func init() {
 				return obs
 			}
 			rd := reads[0]
-			// locate the confinement conditions
-			var cut []ssaEdge
-			var vChecked, rChecked ssa.Value
-			var rootCall, locCall *ssa.Call
-			havePrefix, haveEq, haveRootEmpty := false, false, false
-			for _, b := range fn.Blocks {
-				cond, neg := condOfBlock(b)
-				if cond == nil {
-					continue
-				}
-				tEdge, fEdge := 0, 1
-				if neg {
-					tEdge, fEdge = 1, 0
-				}
-				switch x := cond.(type) {
-				case *ssa.Call:
-					if staticCalleeIs(&x.Call, "strings", "HasPrefix") && len(x.Call.Args) == 2 {
-						v := x.Call.Args[0]
-						lc := extractOf(v, 0, "path/filepath", "EvalSymlinks")
-						add2, ok := x.Call.Args[1].(*ssa.BinOp)
-						if lc == nil || !ok || add2.Op != token.ADD {
-							add("prefix test operands", Violated, "HasPrefix is not applied to (EvalSymlinks(loc) result, root + separator)", x.Pos())
+			core, notes := confineCoreOf(fn)
+			// the function in which the test is written, the value the read must use, the edges
+			// that pass, and the argument (of this function) that is confined
+			testFn := fn
+			var helperCall *ssa.Call
+			helperParam := -1
+			vRead := core.vChecked
+			cut := core.cut
+			if !core.havePrefix {
+				// a confining helper: (string, error) results, the string flows to the read
+				for _, b := range fn.Blocks {
+					for _, in := range b.Instrs {
+						call, ok := in.(*ssa.Call)
+						if !ok {
 							continue
 						}
-						rc := extractOf(add2.X, 0, "path/filepath", "EvalSymlinks")
-						sepOK := false
-						if cv, ok := add2.Y.(*ssa.Convert); ok {
-							if k, ok := cv.X.(*ssa.Const); ok && k.Value != nil {
-								if iv, exact := constant.Int64Val(k.Value); exact && (iv == '/' || iv == '\\') {
-									sepOK = true
+						h := call.Call.StaticCallee()
+						if h == nil || len(h.Blocks) == 0 || h.Pkg == nil || !strings.HasPrefix(h.Pkg.Pkg.Path(), modPath) || h.Signature.Results().Len() != 2 {
+							continue
+						}
+						hcore, hnotes := confineCoreOf(h)
+						if !hcore.havePrefix {
+							continue
+						}
+						// every success return of the helper gives the checked value, behind the test
+						okRet, nret := true, 0
+						for _, hb := range h.Blocks {
+							for _, hin := range hb.Instrs {
+								r, isRet := hin.(*ssa.Return)
+								if !isRet || len(r.Results) != 2 {
+									continue
+								}
+								if k, isK := r.Results[1].(*ssa.Const); !isK || !k.IsNil() {
+									continue // an error return
+								}
+								nret++
+								if r.Results[0] != hcore.vChecked || ssaReachableAvoiding(h, hb, hcore.cut) {
+									okRet = false
 								}
 							}
 						}
-						if k, ok := add2.Y.(*ssa.Const); ok && k.Value != nil && k.Value.Kind() == constant.String {
-							s := constant.StringVal(k.Value)
-							sepOK = s == "/" || s == "\\"
+						if !okRet || nret == 0 {
+							add("confining helper", Violated, "the helper "+h.Name()+" can return a path without an error that is not the resolved path that passed the containment test", call.Pos())
+							return obs
 						}
-						if rc == nil || !sepOK {
-							add("prefix test operands", Violated, "the prefix is not `EvalSymlinks(root) result + path separator` (a bare prefix lets /root-evil pass for /root)", x.Pos())
-							continue
+						core, notes = hcore, hnotes
+						testFn, helperCall = h, call
+						for _, ex := range *call.Referrers() {
+							if e, ok := ex.(*ssa.Extract); ok && e.Index == 0 {
+								vRead = e
+							}
 						}
-						havePrefix = true
-						vChecked, rChecked, rootCall, locCall = v, add2.X, rc, lc
-						cut = append(cut, ssaEdge{b, tEdge})
-					}
-				case *ssa.BinOp:
-					if x.Op != token.EQL && x.Op != token.NEQ {
-						continue
-					}
-					// RootDir == "" / != ""
-					if (isFieldLoad(x.X, "RootDir") && isConstString(x.Y, "")) || (isFieldLoad(x.Y, "RootDir") && isConstString(x.X, "")) {
-						haveRootEmpty = true
-						if x.Op == token.EQL {
-							cut = append(cut, ssaEdge{b, tEdge})
-						} else {
-							cut = append(cut, ssaEdge{b, fEdge})
-						}
-						continue
-					}
-					lx := extractOf(x.X, 0, "path/filepath", "EvalSymlinks")
-					ly := extractOf(x.Y, 0, "path/filepath", "EvalSymlinks")
-					if lx != nil && ly != nil && x.X.Type().String() == "string" {
-						haveEq = true
-						if x.Op == token.EQL {
-							cut = append(cut, ssaEdge{b, tEdge})
-						} else {
-							cut = append(cut, ssaEdge{b, fEdge})
-						}
-						// must relate the same two values as the prefix test (checked below)
-						if vChecked != nil && !((x.X == vChecked && x.Y == rChecked) || (x.Y == vChecked && x.X == rChecked)) {
-							add("equality test operands", Violated, "the `resolved == root` test compares other values than the prefix test", x.Pos())
-						}
+						cut = append(rootEmptyEdges(fn), errNilEdges(fn, call)...)
+						core.haveRootEmpty = len(rootEmptyEdges(fn)) > 0
 					}
 				}
 			}
-			if !havePrefix {
+			for _, n := range notes {
+				add(n.construct, n.verdict, n.detail, n.pos)
+			}
+			if !core.havePrefix {
 				add("prefix test", Violated, "no `strings.HasPrefix(resolved, root+separator)` guard found", token.NoPos)
 				return obs
 			}
-			add("prefix test operands", Proved, "HasPrefix(EvalSymlinks(loc)#0, EvalSymlinks(root)#0 + separator)", vChecked.Pos())
-			if !haveRootEmpty {
+			add("prefix test operands", Proved, "HasPrefix(EvalSymlinks(loc)#0, EvalSymlinks(root)#0 + separator)", core.vChecked.Pos())
+			if !core.haveRootEmpty {
 				add("RootDir switch", Undecided, "no `RootDir == \"\"` test found", token.NoPos)
 			}
-			_ = haveEq
+			if helperCall != nil {
+				if errReturnedIn(fn, helperCall) {
+					add("confining helper error", Proved, "a refusal by "+testFn.Name()+" is returned as the error", helperCall.Pos())
+				} else {
+					add("confining helper error", Violated, "the error of the confining helper "+testFn.Name()+" is not returned: a refused path is read anyway", helperCall.Pos())
+				}
+			}
 			// 1. must-pass-through
 			if ssaReachableAvoiding(fn, rd.Block(), cut) {
 				add("read guarded", Violated, "os.ReadFile is reachable with RootDir set without passing the containment test", rd.Pos())
@@ -369,43 +665,25 @@ func init() {
 				okArg = true
 				nchecked := 0
 				for _, e := range a.Edges {
-					if e == vChecked {
+					if e == vRead {
 						nchecked++
 						continue
 					}
-					// any other incoming value must come from the unconfined side: it must not
-					// be reachable when the RootDir=="" edge is cut -> approximated by requiring
-					// that it is not derived from EvalSymlinks and that exactly one edge is the checked value
-					if derivesFrom(e, func(v ssa.Value) bool { return v == vChecked }, 6, map[ssa.Value]bool{}) {
+					// any other incoming value must come from the unconfined side
+					if derivesFrom(e, func(v ssa.Value) bool { return v == vRead }, 6, map[ssa.Value]bool{}) {
 						okArg = false
 					}
 				}
 				if nchecked == 0 {
 					okArg = false
 				}
-				// the edges that do not carry vChecked must come from predecessors reachable only via RootDir==""
+				// the edges that do not carry the checked value must come from predecessors reachable only via RootDir==""
+				cutEmpty := rootEmptyEdges(fn)
 				for i, e := range a.Edges {
-					if e == vChecked {
+					if e == vRead {
 						continue
 					}
 					pred := a.Block().Preds[i]
-					var cutEmpty []ssaEdge
-					for _, b := range fn.Blocks {
-						cond, neg := condOfBlock(b)
-						bo, ok := cond.(*ssa.BinOp)
-						if !ok || !((isFieldLoad(bo.X, "RootDir") && isConstString(bo.Y, "")) || (isFieldLoad(bo.Y, "RootDir") && isConstString(bo.X, ""))) {
-							continue
-						}
-						tEdge, fEdge := 0, 1
-						if neg {
-							tEdge, fEdge = 1, 0
-						}
-						if bo.Op == token.EQL {
-							cutEmpty = append(cutEmpty, ssaEdge{b, tEdge})
-						} else {
-							cutEmpty = append(cutEmpty, ssaEdge{b, fEdge})
-						}
-					}
 					if pred != a.Block() && ssaReachableAvoiding(fn, pred, cutEmpty) && pred != fn.Blocks[0] {
 						// reachable with RootDir set: then pred must be the RootDir test block itself
 						if c0, _ := condOfBlock(pred); c0 == nil {
@@ -414,49 +692,26 @@ func init() {
 					}
 				}
 			default:
-				okArg = arg == vChecked
+				okArg = arg == vRead
 			}
 			if okArg {
 				add("read path", Proved, "the path handed to os.ReadFile on the confined path is the very value that was checked (resolved path), not the unresolved location", rd.Pos())
 			} else {
 				add("read path", Violated, "the path handed to os.ReadFile is not the resolved, checked value on every confined path (check/read mismatch: TOCTOU or bypass)", rd.Pos())
 			}
-			// 3. root operand derives from RootDir through Clean; its error is returned
+			// 3. root operand derives from RootDir; its error is returned
+			rootCall, locCall := core.rootCall, core.locCall
 			if rootCall != nil && derivesFrom(rootCall.Call.Args[0], func(v ssa.Value) bool { return isFieldLoad(v, "RootDir") }, 6, map[ssa.Value]bool{}) {
 				add("root operand", Proved, "resolved root = EvalSymlinks(... lib.RootDir ...)", rootCall.Pos())
 			} else {
 				add("root operand", Violated, "the root compared against is not derived from lib.RootDir", token.NoPos)
 			}
-			errChecked := func(call *ssa.Call) bool {
-				for _, b := range fn.Blocks {
-					cond, neg := condOfBlock(b)
-					bo, ok := cond.(*ssa.BinOp)
-					if !ok || (bo.Op != token.NEQ && bo.Op != token.EQL) {
-						continue
-					}
-					ex, ok := bo.X.(*ssa.Extract)
-					if !ok || ex.Tuple != ssa.Value(call) || ex.Index != 1 {
-						continue
-					}
-					errEdge := 0
-					if bo.Op == token.EQL {
-						errEdge = 1
-					}
-					if neg {
-						errEdge = 1 - errEdge
-					}
-					if blockReturns(b.Succs[errEdge]) {
-						return true
-					}
-				}
-				return false
-			}
-			if rootCall != nil && errChecked(rootCall) {
+			if rootCall != nil && errReturnedIn(testFn, rootCall) {
 				add("root resolve error", Proved, "a failed EvalSymlinks(root) returns an error (an empty root would make every absolute path pass the prefix test)", rootCall.Pos())
 			} else {
 				add("root resolve error", Violated, "the error of EvalSymlinks(root) is not returned", token.NoPos)
 			}
-			if locCall != nil && errChecked(locCall) {
+			if locCall != nil && errReturnedIn(testFn, locCall) {
 				add("loc resolve error", Proved, "a failed EvalSymlinks(loc) returns an error", locCall.Pos())
 			} else {
 				add("loc resolve error", Violated, "the error of EvalSymlinks(loc) is not returned", token.NoPos)
@@ -484,6 +739,19 @@ func init() {
 					add("absolute operands", Violated, "the root or the location is resolved without being made absolute first: with a relative RootDir such as \"..\" the prefix test compares relative spellings and \"../../secret.lisp\" passes", locCall.Pos())
 				}
 				a = inner
+				if helperCall != nil {
+					// inside the helper the location is its parameter; the caller passes the cleaned location
+					for i, pv := range testFn.Params {
+						if ssa.Value(pv) == a {
+							helperParam = i
+						}
+					}
+					if helperParam < 0 || helperParam >= len(helperCall.Call.Args) {
+						add("loc operand", Violated, "the path the helper "+testFn.Name()+" resolves is not the location it was given", locCall.Pos())
+						return obs
+					}
+					a = helperCall.Call.Args[helperParam]
+				}
 				cl := asCall(a)
 				if cl != nil && staticCalleeIs(&cl.Call, "path/filepath", "Clean") {
 					hasParam := derivesFrom(cl.Call.Args[0], func(v ssa.Value) bool { p, ok := v.(*ssa.Parameter); return ok && p.Name() == "loc" }, 6, map[ssa.Value]bool{})
@@ -797,6 +1065,8 @@ func init() {
 					construct := ord.next("call " + pp + "." + n)
 					if permitted[u.Name()] {
 						obs = append(obs, mkOb(c, "CONFINE.readers", u, construct, ce, Proved, "inside a SourceLibrary.LoadSource implementation (path checked by CONFINE.relative / CONFINE.fs)", false))
+					} else if via, ok := c.privateHelperOf(u.Obj, func(n string) bool { return permitted[n] }, 0); ok {
+						obs = append(obs, mkOb(c, "CONFINE.readers", u, construct, ce, Proved, "private helper of "+via+", a SourceLibrary.LoadSource implementation", false))
 					} else {
 						obs = append(obs, mkOb(c, "CONFINE.readers", u, construct, ce, Violated, "file-system access in the interpreter kernel outside the SourceLibrary implementations: not subject to root confinement", false))
 					}
@@ -805,7 +1075,7 @@ func init() {
 			return obs
 		}})
 
-	register(&Rule{ID: "CONFINE.load-funnel", Floor: 2,
+	register(&Rule{ID: "CONFINE.load-funnel", Floor: 1,
 		Doc: "every call of SourceLibrary.LoadSource in the kernel passes the context obtained from Runtime.sourceContext() (relative locations resolve against the loading file) and happens in LoadFile/LoadFileContext",
 		Run: func(c *Ctx) []Obligation {
 			sc := c.LookupMethod("lisp.Runtime.sourceContext")
@@ -827,6 +1097,9 @@ func init() {
 					}
 					obj := identObj(info, ce.Args[0])
 					okCtx := false
+					if dc, ok := ast.Unparen(ce.Args[0]).(*ast.CallExpr); ok && originOf(Callee(info, dc)) == sc {
+						okCtx = true // written in place
+					}
 					if obj != nil {
 						if dc, _, n := definingCall(info, u.Decl.Body, obj); dc != nil && n == 1 && originOf(Callee(info, dc)) == sc {
 							okCtx = true
